@@ -112,6 +112,9 @@ def solver(name, method, it, dde):
         returns="seq[row]",
         abstractions=ABS,
         fn_nolog=["func"],
+        # the locals of the loop contract are roles, bound to the five preparation statements in their order (write cursor, number of
+        # steps, number of stored rows, storage cadence, record buffer) whatever the source calls them
+        bind_locals={"idx": (0, 0), "steps": (1, 0), "store_steps": (2, 0), "store_step": (3, 0), "state_rec": (4, 0)},
     )
     if dde:
         c["requires"] += ["args[0]._growable", "args[0]._t[args[0]._n - 1] < dt"]
